@@ -92,8 +92,9 @@ def packetCopy (off : Nat) (data : List UInt8) : DM Unit := do
 def drainLoop : Nat → DM Unit
   | 0 => ub .fuel
   | fuel + 1 => do
-    let value ← rread REGFIFO
     let h ← getH
+    if h.received.toNat ≥ h.packet.length then fail SX127X_ERR_INVALID_ARG else
+    let value ← rread REGFIFO
     packetStore h.received.toNat value
     modH fun h => { h with received := h.received + 1 }
     let irq ← rread REGIRQFLAGS2
@@ -136,6 +137,8 @@ def fskOokReadPayloadBatch (fuel : Nat) (readBatch : Bool) : DM Unit := do
   let remaining : Nat := FIFO_SIZE_FSK - consumed     -- `uint8_t remaining_fifo`
   let h ← getH
   if h.expected = h.received then pure () else
+  -- a packet that does not fit into the buffer is not read
+  if h.expected.toNat > h.packet.length then fail SX127X_ERR_INVALID_ARG else
   let batch : Nat := HALF_MAX_FIFO_THRESHOLD - 1
   if readBatch ∧ h.received.toNat + batch < h.expected.toNat then do
     -- destination range is checked before the transfer, as the C writes through the pointer
@@ -200,7 +203,9 @@ def fskOokHandleInterrupt (fuel : Nat) : DM Unit := do
       let diff : Int := (h.expected.toNat : Int) - (h.received.toNat : Int)
       let toSend : UInt8 := if diff > (HALF_MAX_FIFO_THRESHOLD - 1 : Nat) then u8 (HALF_MAX_FIFO_THRESHOLD - 1)
                             else UInt8.ofNat (diff % 256).toNat
-      if toSend = 0 then pure () else do
+      if toSend = 0 then pure () else
+      -- never read the frame beyond the buffer
+      if h.received.toNat + toSend.toNat > h.packet.length then pure () else do
         if h.received.toNat + toSend.toNat ≤ h.packet.length then pure () else ub .oobPacket
         bwrite REGFIFO (h.packet.rds h.received.toNat toSend.toNat)
         modH fun h => { h with received := h.received + toSend.toUInt16 }
@@ -225,6 +230,8 @@ def loraRxReadPayload : DM Unit := do
   checkModulation SX127x_MODULATION_LORA
   let h ← getH
   let length : UInt8 ← (if h.expected = 0 then rread REGRXNBBYTES else pure h.expected.toUInt8)
+  -- a packet that does not fit into the buffer is not read
+  if length.toNat > h.packet.length then fail SX127X_ERR_INVALID_ARG else
   modH fun h => { h with expected := length.toUInt16 }
   let current ← rread REGFIFORXCURRENTADDR
   swrite REGFIFOADDRPTR [current]
@@ -595,6 +602,8 @@ def fskOokTxSetForTransmission (data : List UInt8) : DM Unit := do
   let n := data.length
   if h.format = SX127X_VARIABLE ∧ n > MAX_PACKET_SIZE then fail SX127X_ERR_INVALID_ARG else
   if h.format = SX127X_FIXED ∧ n > MAX_PACKET_SIZE_FSK_FIXED then fail SX127X_ERR_INVALID_ARG else
+  -- the frame is assembled in the buffer
+  if n + (if h.format = SX127X_VARIABLE then 1 else 0) > h.packet.length then fail SX127X_ERR_INVALID_ARG else
   if h.format = SX127X_VARIABLE then do
     packetStore 0 (u8 n)
     packetCopy 1 data
@@ -610,6 +619,8 @@ def fskOokTxSetForTransmissionWithAddress (data : List UInt8) (addressTo : UInt8
   let n := data.length
   if h.format = SX127X_VARIABLE ∧ n > MAX_PACKET_SIZE - 1 then fail SX127X_ERR_INVALID_ARG else
   if h.format = SX127X_FIXED ∧ n > MAX_PACKET_SIZE_FSK_FIXED - 1 then fail SX127X_ERR_INVALID_ARG else
+  -- the frame is assembled in the buffer
+  if n + (if h.format = SX127X_VARIABLE then 2 else 1) > h.packet.length then fail SX127X_ERR_INVALID_ARG else
   if h.format = SX127X_VARIABLE then do
     packetStore 0 (u8 (n + 1))
     packetStore 1 addressTo
@@ -625,7 +636,7 @@ def fskOokTxStartBeacon (data : List UInt8) (intervalMs : Nat) : DM Unit := do
   checkFskOok
   let h ← getH
   if h.format ≠ SX127X_FIXED then fail SX127X_ERR_INVALID_STATE else
-  if data.length > FIFO_SIZE_FSK then fail SX127X_ERR_INVALID_ARG else
+  if data.length > FIFO_SIZE_FSK ∨ data.length > h.packet.length then fail SX127X_ERR_INVALID_ARG else
   match beaconTimers intervalMs with
   | none => ub .castRange
   | some (c1, c2, resol) => do
@@ -662,12 +673,12 @@ def fskOokSetBitrate (bitrate : F) : DM Unit := do
     swrite REGBITRATEMSB [u8 (v / 256), u8 v]
     swrite REGBITRATEFRAC [frac]
   if h.activeModem = SX127x_MODULATION_FSK then
-    if F.lt bitrate (F.fin 1200) ∨ F.gt bitrate (F.fin 300000) then fail SX127X_ERR_INVALID_ARG else
+    if ¬(F.le (F.fin 1200) bitrate ∧ F.le bitrate (F.fin 300000)) then fail SX127X_ERR_INVALID_ARG else
     match fskBitrateValue bitrate with
     | none => ub .castRange
     | some value => write ((value / 16) % 65536) (u8 (value % 16))
   else if h.activeModem = SX127x_MODULATION_OOK then
-    if F.lt bitrate (F.fin 1200) ∨ F.gt bitrate (F.fin 25000) then fail SX127X_ERR_INVALID_ARG else
+    if ¬(F.le (F.fin 1200) bitrate ∧ F.le bitrate (F.fin 25000)) then fail SX127X_ERR_INVALID_ARG else
     match ookBitrateValue bitrate with
     | none => ub .castRange
     | some value => write value 0
@@ -680,7 +691,7 @@ def fdevValue (fdev : F) : Option Nat :=
 /-- `sx127x_fsk_set_fdev` -/
 def fskSetFdev (fdev : F) : DM Unit := do
   checkModulation SX127x_MODULATION_FSK
-  if F.lt fdev (F.fin 600) ∨ F.gt fdev (F.fin 200000) then fail SX127X_ERR_INVALID_ARG else
+  if ¬(F.le (F.fin 600) fdev ∧ F.le fdev (F.fin 200000)) then fail SX127X_ERR_INVALID_ARG else
   match fdevValue fdev with
   | none => ub .castRange
   | some v => swrite REGFDEVMSB [u8 (v / 256), u8 v]
